@@ -386,6 +386,20 @@ class C07World(simnet.World):
         self.inst[2] = self.n.add_overlay(AnonOverlay, settings, endpoint=self.app_ep)
         self.ref.asked["anon"] = True          # the new instance asked for anonymity (Community.__init__ registers it)
 
+    def load_pex(self) -> None:
+        """
+        The PEX overlay that HiddenTunnelCommunity.on_establish_intro creates on the node's TunnelEndpoint for the SHA-1
+        a remote seeder names; here the SHA-1 whose PEX community id equals the anonymized overlay's id (same prefix).
+        It did not ask for anonymity, and it does not send anything by itself.
+        """
+        from ipv8.messaging.anonymization.pex import PEX_VERSION, PexCommunity, PexSettings  # noqa: PLC0415
+        from ipv8.peerdiscovery.network import Network  # noqa: PLC0415
+        info_hash = ((int.from_bytes(AnonOverlay.community_id, "big") - PEX_VERSION) % (1 << 160)).to_bytes(20, "big")
+        pex = self.n.run(lambda: PexCommunity(PexSettings(my_peer=self.n.my_peer, endpoint=self.app_ep,
+                                                          network=Network(), info_hash=info_hash)))
+        assert pex.get_prefix() == self.a_prefix
+        self.inst[3] = pex
+
     def unload(self, inst: int) -> None:
         overlay = self.inst[inst]
         t0 = self.loop.time()
@@ -554,7 +568,7 @@ class Model(core.BfsModel):
             k = ev[0]
             if k == "rm" and (not w.removable() or (ev[1] == "last" and len(w.removable()) < 2)):
                 continue
-            if k in ("build", "buildsa") and len(w.tc.circuits) >= self.max_circuits:
+            if k in ("build", "buildsa", "buildcw") and len(w.tc.circuits) >= self.max_circuits:
                 continue
             if k == "buildsa" and w.inst[1] is None:
                 continue
@@ -573,6 +587,8 @@ class Model(core.BfsModel):
             if k == "load2" and w.inst[2] is not None:
                 continue
             if k == "unload" and w.inst[ev[1]] is None:
+                continue
+            if k == "pex" and w.inst.get(3) is not None:
                 continue
             out.append(i)
         return out
@@ -606,6 +622,24 @@ class Model(core.BfsModel):
                     break
                 w.deliver(0)
             w.send_anon()
+        elif k == "buildcw":
+            # somebody awaits the new circuit's `ready` future (as hidden services, the REST API and applications do) and
+            # is cancelled k deliveries into the handshake - a wait_for() timeout or a client that went away
+            before = set(w.tc.circuits)
+            w.build(ev[1], ev[2])
+            w.loop.settle()
+            new = [c for cid, c in w.tc.circuits.items() if cid not in before]
+            for _ in range(ev[3]):
+                if not w.inflight:
+                    break
+                w.deliver(0)
+            if new:
+                async def waiter(c=new[0]) -> None:  # noqa: ANN001
+                    await c.ready
+                t = w.loop.create_task(waiter())
+                w.loop.settle()
+                t.cancel()
+                w.loop.settle()
         elif k == "rm":
             w.remove(ev[1])
         elif k == "tick":
@@ -627,6 +661,8 @@ class Model(core.BfsModel):
             w.load_second()
         elif k == "unload":
             w.unload(ev[1])
+        elif k == "pex":
+            w.load_pex()
         else:
             raise ValueError(ev)
         w.flush()
@@ -683,7 +719,7 @@ class Model(core.BfsModel):
         return (settings, tep.tunnel_community is tc, tep.tunnel_community is None, tep.hops,
                 (len(queue), tuple(sorted(set(queue)))), tuple(circuits), tuple(tables), timers, len(w.inflight),
                 tuple(sorted(w.ref.asked.items())), tuple(sorted(w.ref.ever_asked.items())), scalars,
-                tuple(o is not None for o in w.inst.values()))
+                tuple(w.inst.get(i) is not None for i in (1, 2, 3)))
 
     # -- oracle -----------------------------------------------------------------------------------------
     def judge(self, w: C07World, what: str) -> list:
@@ -792,7 +828,7 @@ class Model(core.BfsModel):
                 w.app_ep.set_anonymity(w.prefix_of[which], False)
         w.send_plain()
         for i, overlay in w.inst.items():
-            if overlay is not None:
+            if overlay is not None and i != 3:
                 w.send_anon(inst=i)
         # no flush: what N hands to its raw socket and to send_data is recorded at the call, nothing has to be delivered
         v.extend(self.judge(w, f"probe (other prefixes declared not anonymous, plain send, one send by every loaded "
@@ -810,7 +846,7 @@ FULL = [("sa",), ("sp",), ("burst",),
         ("detach",), ("attach", 1), ("attach", 2), ("toggle",),
         ("setp", "tunnel", False), ("setp", "plain", False), ("setp", "plain", True), ("setp", "unknown", False)]
 LIFE = [("sa",), ("sa2",), ("load2",), ("unload", 1), ("unload", 2), ("toggle",), ("build", "X", 1), ("rm", "first"),
-        ("tick",), ("detach",)]
+        ("tick",), ("detach",), ("pex",)]
 # the exit's operator withdraws / re-announces IPv8 exiting (real re-introduction in both directions inside the event)
 FLAGS = [("sa",), ("xflags", "X", False), ("xflags", "X", True), ("build", "X", 1), ("build", "Y", 1), ("build", "X", 2),
          ("rm", "first"), ("tick",), ("attach", 2)]
@@ -822,7 +858,8 @@ PSEUDO = [("sa",), ("sp",), ("build", "X", 1), ("build", "Y", 1), ("rm", "first"
 # extension is under way), so that whatever the library remembers about a half-built circuit is later used on the
 # finished one
 MID = ([("sa",), ("rm", "first"), ("tick",), ("attach", 1), ("attach", 2), ("buildsa", "X", 1, 1)]
-       + [("buildsa", e, 2, k) for e in ("Y", "X") for k in (1, 2, 3, 4, 5)])
+       + [("buildsa", e, 2, k) for e in ("Y", "X") for k in (1, 2, 3, 4, 5)]
+       + [("buildcw", e, 2, k) for e in ("Y", "X") for k in (0, 2)])
 EVERYTHING = FULLX + [e for e in LIFE if e not in FULLX] + [e for e in MID if e not in FULLX]
 CORE = [("sa",), ("burst",), ("build", "X", 1), ("build", "Y", 1), ("build", "X", 2),
         ("rm", "first"), ("tick",), ("detach",), ("attach", 2), ("toggle",)]
